@@ -100,7 +100,11 @@ func genSection1(r *core.PRNG, kind string, tag int, pat *refts.PAT, pmt *refts.
 		}
 		s.NIT = t
 	case "EIT":
-		t := &refts.EIT{TableID: uint8(r.Range(0x4e, 0x6f)), ServiceID: uint16(tag), TSID: uint16(r.Intn(65536)), ONID: uint16(r.Intn(65536)), SegLast: uint8(r.Intn(256)), LastTableID: uint8(r.Range(0x4e, 0x6f))}
+		tid := uint8(r.Range(0x4e, 0x6f))
+		if r.Bool() {
+			tid = []uint8{0x4e, 0x4f, 0x50, 0x5f, 0x60, 0x6f}[r.Intn(6)] // range boundaries
+		}
+		t := &refts.EIT{TableID: tid, ServiceID: uint16(tag), TSID: uint16(r.Intn(65536)), ONID: uint16(r.Intn(65536)), SegLast: uint8(r.Intn(256)), LastTableID: uint8(r.Range(0x4e, 0x6f))}
 		n := r.Pick(1, 4, 2, 1) * mul
 		for i := 0; i < n; i++ {
 			t.Events = append(t.Events, refts.EITEvent{ID: uint16(r.Intn(65536)), Start: genTime(r), DurSecs: r.Intn(100*3600 - 1), Running: uint8(r.Intn(8)), FreeCA: r.Bool(), Descs: genDescs(r, 30)})
